@@ -30,7 +30,7 @@ class Query:
     def __init__(self, name, src, entry, defines=None, unwind=None, unwindset=None, replace=None,
                  safety=True, extra=None, backends=("cadical", "minisat"), timeout=600, mem_gb=8,
                  big_endian=False, isr=None, includes=None, replay=True, desc="", bounds=None,
-                 unwind_fail_is_violation=False, no_std_checks=False, expect_witness=True, remove_bodies=None, safety_for=("C01", "C18"), split=0, nondet_static=True):
+                 unwind_fail_is_violation=False, no_std_checks=False, expect_witness=True, remove_bodies=None, safety_for=("C01", "C18"), split=0, nondet_static=True, agree=1):
         self.name = name; self.src = src; self.entry = entry
         self.defines = list(defines or []); self.unwind = unwind; self.unwindset = list(unwindset or [])
         self.replace = dict(replace or {}); self.safety = safety; self.extra = list(extra or [])
@@ -44,6 +44,7 @@ class Query:
         self.safety_for = tuple(safety_for)
         self.split = split
         self.nondet_static = nondet_static
+        self.agree = agree          # number of back ends whose verdicts must coincide (thorough tier: 2)
 
 
 class QResult:
@@ -52,7 +53,7 @@ class QResult:
         self.wall = 0.0; self.solver_s = None; self.error = None; self.functions = []
         self.failed = []; self.witness_ok = None; self.unwind_failed = []; self.rss_mb = None
         self.witness_reached = []; self.witness_missed = []
-        self.nprops = 0; self.nsuccess = 0; self.undecided = []; self.stats = {}
+        self.nprops = 0; self.nsuccess = 0; self.undecided = []; self.stats = {}; self.agreeing_backends = []
 
 
 def run(cmd, **kw):
@@ -194,7 +195,7 @@ def _run_backend(q, gb, backend, bdir, box, extra=None):
             box.setdefault("notes", []).append("%s: timeout %ds" % (backend, q.timeout))
             return
         dt = time.time() - t0
-        if box.get("done"):
+        if box.get("done") and p.returncode not in (0, 10):
             return
         rc = p.returncode
         text = open(out).read()
@@ -206,15 +207,18 @@ def _run_backend(q, gb, backend, bdir, box, extra=None):
             pass
         if rc in (0, 10) and results is not None:
             with box["lock"]:
-                if not box.get("done"):
-                    box["done"] = True
+                box.setdefault("verdicts", []).append((backend, {x.get("property"): x.get("status") for x in results}))
+                if "res" not in box:
                     box["res"] = (backend, results, runtime, dt, rss)
                     box["stats"] = stats
-            # kill the others
-            for op in box.get("procs", []):
-                if op is not p and op.poll() is None:
-                    try: os.killpg(op.pid, signal.SIGKILL)
-                    except Exception: pass
+                if len(box["verdicts"]) >= box.get("need", 1):
+                    box["done"] = True
+            if box.get("done"):
+                # kill the others
+                for op in box.get("procs", []):
+                    if op is not p and op.poll() is None:
+                        try: os.killpg(op.pid, signal.SIGKILL)
+                        except Exception: pass
         else:
             box.setdefault("notes", []).append("%s: rc=%s %s %s" % (backend, rc, (err or "")[:400], (se or "")[-300:]))
     finally:
@@ -222,7 +226,7 @@ def _run_backend(q, gb, backend, bdir, box, extra=None):
 
 
 def solve(q, gb, bdir, backends=None, extra=None):
-    box = {"lock": threading.Lock()}
+    box = {"lock": threading.Lock(), "need": (1 if (backends is not None or extra) else max(1, min(q.agree, len(q.backends))))}
     ths = []
     for b in (backends or q.backends):
         t = threading.Thread(target=_run_backend, args=(q, gb, b, bdir, box, extra))
@@ -341,6 +345,15 @@ def run_query(q, workdir):
         res.status = "inconclusive"; res.error = "; ".join(box.get("notes", ["no verdict"]))
         return res
     backend, results, runtime, dt, rss = box["res"]
+    vs = box.get("verdicts", [])
+    res.agreeing_backends = [b for b, _ in vs]
+    if len(vs) >= 2:
+        ref = vs[0][1]
+        for b2, v2 in vs[1:]:
+            diff = [k for k in ref if k in v2 and ref[k] != v2[k] and "UNKNOWN" not in (ref[k], v2[k])]
+            if diff:
+                res.status = "inconclusive"; res.error = "back ends disagree (%s vs %s) on %s" % (vs[0][0], b2, diff[:3]); res.wall = time.time() - t0
+                return res
     res.backend = backend; res.solver_s = runtime; res.props = results; res.rss_mb = rss
     res.stats = box.get("stats", {})
     res.nprops = len(results)
